@@ -64,6 +64,9 @@ def HX_Eff(Arrangement, Ntu, c, Passes=None, Rows=None, Cmin_Phase=None):
 
     Ntu = Ntu / Passes
     if Ntu > 0 and c >= 0:
+        if c == 0:
+            # Zero capacity ratio: every arrangement reduces to the single-stream relation
+            Arrangement = HX.CondEvap.value
         # Counter Flow - Single Pass Effectiveness
         if Arrangement == HX.CF.value:
             # test = c * math.exp(-Ntu * (1 - c))
@@ -124,6 +127,9 @@ def HX_NTU(Arrangement, eff, c, Passes=None):
         eff = Eff_p
 
     if eff > 0 and eff < 1:
+        if c == 0:
+            # Zero capacity ratio: every arrangement reduces to the single-stream relation
+            Arrangement = HX.CondEvap.value
         # Counter Flow - Single Pass Effectiveness
         if Arrangement == HX.CF.value:
             if c != 1:
